@@ -19,6 +19,19 @@ Behaviours (see lean/JRV/Model/Transport.lean; <code> is any HTTP status, <k> a 
     sx<code>           status <code> whose body is longer than the announced Content-Length, all in one segment
     sy<code>           the same, the surplus bytes (no line end, not an HTTP status line) are sent late
     sz<code>_<k>       the same, the late surplus is followed by a complete 200 reply carrying token <k>
+    q<infos>_<final>_<delta>_<cuts>
+                       a reply delivered in pieces.  <infos>: informational responses sent first, one letter each - c/C `100
+                       Continue`, p/P `102 Processing`, e/E `103 Early Hints` (no body, no length header; upper case: the
+                       peer pauses after it).  <final>: ok (200 + own result) | s<code>[o|f|e|h] (status with a body; h: the
+                       body is itself a complete HTTP 200 reply carrying token + FOREIGN) | b<code> (bodiless 204/304).
+                       <delta>: `=` body as long as the announced Content-Length (b: `Content-Length: 0`), `+` longer (the
+                       surplus in the segment of the last body byte), `~` longer (the surplus after a pause), `-` shorter, then
+                       the peer closes, `n` no length header (s: the peer closes after the body; b: keep-alive).
+                       <cuts> (subset of "lhb"): the peer pauses after the status line (l), after the header block (h), in
+                       the middle of the body (b).
+                       A pause lasts until the client HAS ACTED: its call has returned (the remaining bytes are then sent at
+                       end_call: they arrive on a connection the client has finished with) or it is blocked reading from an
+                       empty socket (the remaining bytes are what it is waiting for).
 
 A timeout of the peer's own bookkeeping (quiesce, accept thread) is an infrastructure failure (core.InfraError), never a
 silent pass.
@@ -29,6 +42,7 @@ import re
 import select
 import socket
 import struct
+import sys
 import threading
 import time
 
@@ -40,10 +54,34 @@ QUIESCE_TIMEOUT = 20.0  # seconds; far above anything a loaded machine needs for
 
 BEH_RE = re.compile(r"^(ok|okc|down|cbr|rst|trunc|empty|nonjson|"
                     r"sl\d+[ofe]?|snl\d+[ofe]?|bl\d+|blz\d+|xn\d+|xl\d+|sx\d+|sy\d+|sz\d+_\d+)$")
+Q_RE = re.compile(r"^q([cCpPeE]*)_(ok|s(\d+)([ofeh]?)|b(\d+))_([=+~n-])_(l?h?b?)$")
+INFO = {"c": (100, "Continue"), "p": (102, "Processing"), "e": (103, "Early Hints")}
+PAUSE_POLL = 0.001      # seconds between two looks at the client while the peer pauses
+PAUSE_STABLE = 3        # consecutive looks that must find the client blocked on an empty socket
+
+
+def parse_q(b):
+    """A reply delivered in pieces -> dict, or None when `b` is not a well-formed q-behaviour."""
+    m = Q_RE.match(b)
+    if not m:
+        return None
+    infos = [(INFO[ch.lower()][0], INFO[ch.lower()][1], ch.isupper()) for ch in m.group(1)]
+    delta, cuts = m.group(6), m.group(7)
+    if m.group(2) == "ok":
+        final = ("ok", 200, "")
+        if delta == "n":
+            return None
+    elif m.group(3) is not None:
+        final = ("s", int(m.group(3)), m.group(4))
+    else:
+        final = ("b", int(m.group(5)), "")
+        if delta not in "=n":
+            return None
+    return {"infos": infos, "final": final, "delta": delta, "cuts": cuts}
 
 
 def valid_beh(b):
-    return bool(BEH_RE.match(b))
+    return bool(BEH_RE.match(b)) or parse_q(b) is not None
 
 
 class Peer(object):
@@ -64,6 +102,12 @@ class Peer(object):
         self.dirty = set()  # connections on which late bytes were sent: the client no longer reads answers in step
         self.late_sent = 0
         self.stopping = False
+        self.close_after = set()  # connections to close once their deferred bytes have been sent
+        self.call_done = threading.Event()  # set when the client's call has returned (end_call)
+        self.client_tid = None    # thread that makes the calls (begin_call is called from it)
+        self.client_sock = None   # callable -> the client's socket (or None), set by the harness
+        self.pauses = {"blocked": 0, "returned": 0}
+        self.infra_error = None   # a failure of the peer's own bookkeeping inside a handler thread
         self.come_up(first=True)
 
     # ---- lifecycle -------------------------------------------------------------------------
@@ -156,6 +200,8 @@ class Peer(object):
                 raise core.InfraError("scripted peer: unknown behaviour %r" % (b,))
         with self.lock:
             self.scripts[index] = list(script)
+        self.client_tid = threading.get_ident()
+        self.call_done.clear()
         if script and script[0] == "down":
             self.go_down()
 
@@ -189,9 +235,11 @@ class Peer(object):
     def end_call(self):
         """Returns the number of connections on which late bytes were sent (the caller may want to wait until they
         have reached the client's socket)."""
+        self.call_done.set()  # the client has acted: handlers pausing inside a reply defer the rest of it
         self.quiesce()
         with self.lock:
             deferred, self.deferred = self.deferred, []
+            closing, self.close_after = self.close_after, set()
         sent = 0
         for c, data in deferred:
             try:
@@ -201,7 +249,18 @@ class Peer(object):
                     self.dirty.add(id(c))
             except OSError:
                 pass
+        for c in closing:
+            # the reply ends with the peer closing the connection: after its last (deferred) bytes
+            with self.lock:
+                if c in self.conns:
+                    self.conns.remove(c)
+            try:
+                c.shutdown(socket.SHUT_RDWR)
+            except OSError:
+                pass
         self.late_sent += sent
+        if self.infra_error and not self.stopping:
+            raise core.InfraError(self.infra_error)
         if self.is_down and not self.stopping:
             self.come_up()
         return sent
@@ -231,6 +290,12 @@ class Peer(object):
                 c, _ = lst.accept()
             except OSError:
                 return
+            if self.kind == "tcp":
+                try:
+                    # a reply sent in several small segments must not wait for the client's delayed ACK (Nagle)
+                    c.setsockopt(socket.IPPROTO_TCP, socket.TCP_NODELAY, 1)
+                except OSError:
+                    pass
             with self.lock:
                 self.conns.append(c)
             t = threading.Thread(target=self._serve, args=(c,))
@@ -316,6 +381,7 @@ class Peer(object):
                 if c in self.conns:
                     self.conns.remove(c)
                 self.deferred = [(dc, d) for (dc, d) in self.deferred if dc is not c]
+                self.close_after.discard(c)
             try:
                 c.close()
             except OSError:
@@ -352,9 +418,107 @@ class Peer(object):
         with self.lock:
             self.deferred.append((c, data))
 
+    # ---- replies delivered in pieces ---------------------------------------------------------
+    def _client_blocked(self):
+        """The calling thread sits in socket.SocketIO.readinto and nothing is waiting in its socket: it has consumed
+        everything sent so far and wants more."""
+        fr = sys._current_frames().get(self.client_tid)
+        if fr is None or fr.f_code.co_name != "readinto" or os.path.basename(fr.f_code.co_filename) != "socket.py":
+            return False
+        try:
+            sock = self.client_sock() if self.client_sock else None
+            if sock is None or sock.fileno() < 0:
+                return False
+            r, _, _ = select.select([sock], [], [], 0)
+        except (OSError, ValueError, AttributeError):
+            return False
+        return not r
+
+    def _pause(self):
+        """Waits until the client has acted; returns "returned" (its call is over) or "blocked" (it waits for more)."""
+        stable = 0
+        deadline = time.monotonic() + QUIESCE_TIMEOUT
+        while True:
+            if self.call_done.is_set() or self.stopping:
+                self.pauses["returned"] += 1
+                return "returned"
+            if self._client_blocked():
+                stable += 1
+                if stable >= PAUSE_STABLE:
+                    self.pauses["blocked"] += 1
+                    return "blocked"
+            else:
+                stable = 0
+            if time.monotonic() > deadline:
+                self.infra_error = ("scripted peer: the client neither returned nor blocked on its socket within %.0f s of a pause"
+                                    % QUIESCE_TIMEOUT)
+                return "returned"
+            time.sleep(PAUSE_POLL)
+
+    def _segments(self, q, tok, rid):
+        """The byte segments of a q-behaviour (a pause between two segments) and whether the peer closes afterwards."""
+        pieces = []  # (bytes, pause after)
+        for code, reason, cut in q["infos"]:
+            extra = b"Link: </style.css>; rel=preload\r\n" if code == 103 else b""
+            pieces.append((("HTTP/1.1 %d %s\r\n" % (code, reason)).encode() + extra + b"\r\n", cut))
+        kind, code, bk = q["final"]
+        delta, cuts = q["delta"], q["cuts"]
+        if kind == "ok":
+            body, reason = self._result(rid, tok), "OK"
+        elif kind == "s":
+            reason = "Err"
+            if bk == "h":
+                body = self._reply(200, "OK", self._result(rid, (tok if isinstance(tok, int) else 0) + FOREIGN))
+            else:
+                body = self._status_body(bk, tok, rid, b"error")
+        else:
+            body, reason = b"", "No Content"
+        pieces.append((("HTTP/1.1 %d %s\r\n" % (code, reason)).encode(), "l" in cuts))
+        head = b""
+        if delta != "n":
+            head += ("Content-Length: %d\r\n" % len(body)).encode()
+        if kind != "b":
+            head += b"Content-Type: application/json\r\n"
+        pieces.append((head + b"\r\n", "h" in cuts))
+        sent_body = body[: max(1, len(body) // 2)] if delta == "-" else body
+        if "b" in cuts and len(sent_body) >= 2:
+            half = len(sent_body) // 2
+            pieces.append((sent_body[:half], True))
+            sent_body = sent_body[half:]
+        pieces.append((sent_body, delta == "~"))
+        if delta in "+~":
+            pieces.append((SURPLUS, False))
+        segments, cur = [], b""
+        for data, cut in pieces:
+            cur += data
+            if cut and cur:
+                segments.append(cur)
+                cur = b""
+        if cur:
+            segments.append(cur)
+        closes = delta == "-" or (delta == "n" and kind == "s")
+        return segments, closes
+
+    def _apply_q(self, c, q, tok, rid):
+        segments, closes = self._segments(q, tok, rid)
+        c.sendall(segments[0])
+        for i in range(1, len(segments)):
+            if self._pause() == "returned":
+                # the client has finished with this exchange: what is left of the reply arrives afterwards
+                self._defer(c, b"".join(segments[i:]))
+                if closes:
+                    with self.lock:
+                        self.close_after.add(c)
+                return True
+            c.sendall(segments[i])
+        return not closes
+
     def _apply(self, c, beh, tok, rid):
         ok_body = self._result(rid, tok)
         try:
+            q = parse_q(beh)
+            if q is not None:
+                return self._apply_q(c, q, tok, rid)
             if beh == "ok":
                 self._send(c, 200, "OK", ok_body)
                 return True
